@@ -76,6 +76,11 @@ func symOf(v ssa.Value) (string, bool) {
 			return x.Name(), true
 		case *ssa.FreeVar:
 			return x.Name(), true
+		case *ssa.Phi:
+			if x.Comment != "" {
+				return x.Comment, true // named local variable merged at a join
+			}
+			return "", false
 		case *ssa.Field:
 			if base, ok := symOf(x.X); ok {
 				st := x.X.Type().Underlying().(*types.Struct)
@@ -105,6 +110,12 @@ func symOf(v ssa.Value) (string, bool) {
 			}
 			return "", false
 		case *ssa.Call:
+			if bi, ok := x.Call.Value.(*ssa.Builtin); ok && bi.Name() == "len" && len(x.Call.Args) == 1 {
+				if s, ok := symOf(x.Call.Args[0]); ok {
+					return "len(" + s + ")", true
+				}
+				return "", false
+			}
 			if f := x.Call.StaticCallee(); f != nil {
 				var args []string
 				for _, a := range x.Call.Args {
